@@ -5,6 +5,7 @@ import Litep2pVerif.Proofs.Manager.Basic
 import Litep2pVerif.Proofs.Node.Wiring
 import Litep2pVerif.Proofs.Addr.Open
 import Litep2pVerif.Model.Noise.Identity
+import Litep2pVerif.Model.Service.Known
 /-!
 # C10 — Peer address book stays bounded, attributable and dialable
 
@@ -69,6 +70,60 @@ example :
     ((m0.addKnownOrdered 1 [good]).dial 1).2 = .started 0 (some [good]) ∧
     (((m0.addKnownOrdered 1 [good]).dial 1).1.updateOnDialFailure good false).peers =
       [(1, ⟨.opening 0, ⟨[⟨good, -100⟩], 64⟩⟩)] := by decide
+
+/-- **What a protocol offers through its `TransportService` keeps its attribution**
+(`TransportService::add_known_address`, the entry point of Kademlia / identify / user protocols, composed with the
+handle's filter): every address that reaches the peer table of `peer` is admissible for `peer` (supported, not local,
+trailing `/p2p/peer`, parsable) and is either one of the OFFERED addresses itself — which then names `peer` — or an
+offered address WITHOUT a trailing `/p2p` with `/p2p/peer` appended; and an offered address whose trailing `/p2p` names
+somebody else contributes nothing: it is never rewritten into an address of `peer`. -/
+theorem service_add_known_address_keeps_attribution (tcp : Bool) (listen : List Multiaddr) (peer : Nat)
+    (as : List Multiaddr) :
+    (∀ b ∈ Service.addKnownAddress tcp listen peer as,
+        Admissible tcp listen peer b ∧
+        (b ∈ as ∨ ∃ a ∈ as, lastP2p a = none ∧ b = withP2p a peer)) ∧
+    (∀ a q, lastP2p a = some q → q ≠ peer → Service.addKnownAddress tcp listen peer [a] = []) := by
+  constructor
+  · intro b hb
+    unfold Service.addKnownAddress at hb
+    obtain ⟨hmem, hadm⟩ := admitted_sound hb
+    refine ⟨hadm, ?_⟩
+    obtain ⟨a, ha, rfl⟩ := List.mem_map.1 hmem
+    unfold Service.normalizeKnown
+    cases hl : a.getLast? with
+    | none => exact Or.inr ⟨a, ha, by simp [lastP2p, hl], rfl⟩
+    | some c =>
+      cases c with
+      | p2p q => exact Or.inl (by simpa using ha)
+      | _ => exact Or.inr ⟨a, ha, by simp [lastP2p, hl], rfl⟩
+  · intro a q hq hne
+    have hl : a.getLast? = some (.p2p q) := by
+      unfold lastP2p at hq
+      cases hl : a.getLast? with
+      | none => simp [hl] at hq
+      | some c =>
+        cases c with
+        | p2p r => simp [hl] at hq; rw [hq]
+        | _ => simp [hl] at hq
+    have hn : Service.normalizeKnown peer a = a := by simp [Service.normalizeKnown, hl]
+    have h1 : admitOne tcp listen peer a = none := by
+      unfold admitOne
+      split
+      · rfl
+      · split
+        · rfl
+        · simp [hl, hne]
+    simp [Service.addKnownAddress, admitted, hn, h1, dedup]
+
+/-- Non-vacuity: offered for peer 1 through the service — without id (kept, id appended), naming 1 (kept as offered),
+naming 2 (refused, NOT rewritten), two `/p2p` components and a relay shape (not TCP addresses). -/
+example :
+    let ip : Comp := .ip4 ⟨8, false, false, true⟩
+    Service.addKnownAddress true [] 1
+      [[ip, .tcp 30], [ip, .tcp 31, .p2p 1], [ip, .tcp 32, .p2p 2], [ip, .tcp 33, .p2p 2, .p2p 1],
+       [ip, .tcp 34, .p2p 2, .other 290, .p2p 1], [ip, .tcp 35, .p2p 2, .other 290]] =
+      [[ip, .tcp 30, .p2p 1], [ip, .tcp 31, .p2p 1]] ∧
+    Service.addKnownAddress true [] 1 [[ip, .tcp 32, .p2p 2]] = [] := by decide
 
 /-! ## bounded -/
 
@@ -595,6 +650,8 @@ end Litep2pVerif.Props.C10
 
 open Litep2pVerif.Props.C10 in
 #print axioms remembered_only_if
+open Litep2pVerif.Props.C10 in
+#print axioms service_add_known_address_keeps_attribution
 open Litep2pVerif.Props.C10 in
 #print axioms supported_implies_parse
 open Litep2pVerif.Props.C10 in
